@@ -557,7 +557,7 @@ def _run(rep):
     if ninjaparse.STATS['disagreements']:
         rep.fail('R:structure parser - the extracted manifest parser and the Python splitter disagreed on %d manifests' % ninjaparse.STATS['disagreements'],
                  {'obligation': 'R:parse_manifest == Python splitter', 'stats': dict(ninjaparse.STATS)}, found_input=False)
-    if dis and not found:
+    if dis and not rep.n_with_input:
         i, call, iv, mv = dis[0]
         rep.fail('W:%s - model and implementation disagree (%d cases), e.g. %r: impl %r, model %r' % (
             call[0], len(dis), call[1], iv, mv),
